@@ -27,8 +27,10 @@ pub const CT: usize = 1088;
 pub const CT: usize = 768;
 
 /// when KHEX is set, every dumped object is also appended as "KIND hex" to the file $KHEX.<pid>
+pub static NOLOG: std::sync::atomic::AtomicBool = std::sync::atomic::AtomicBool::new(false);
 pub fn logx(kind: &str, b: &[u8]) {
     use std::io::Write;
+    if NOLOG.load(std::sync::atomic::Ordering::Relaxed) { return; }
     if let Ok(p) = std::env::var("KHEX") {
         let mut f = std::fs::OpenOptions::new().create(true).append(true).open(format!("{}.{}", p, std::process::id())).unwrap();
         writeln!(f, "{} {}", kind, hex(b)).unwrap();
